@@ -61,7 +61,7 @@ def main():
             meta["error"] = "does not build"
             print(b.stdout[-800:])
             return 2
-        t = sh(["/venv/bin/python", "-m", "pytest", "-q", "-p", "no:cacheprovider", "--timeout=900"], cwd=wt)
+        t = sh(["/venv/bin/python", "-m", "pytest", "-q", "-p", "no:cacheprovider", "--timeout=900", "--no-cov"], cwd=wt)  # coverage fail-under would count seed_demo.py
         meta["tests_with_change"] = t.stdout.strip().splitlines()[-1] if t.stdout.strip() else ""
         meta["tests_rc"] = t.returncode
         d1 = sh(["/venv/bin/python", "seed_demo.py"], cwd=wt)
